@@ -35,7 +35,10 @@ TResp == Consume("resp") /\ Resp(Ev.s, Ev.st, Ev.new, Ev.out)
 
 TAdv == Consume("adv") /\ Adv(Ev.d)
 
-TNext == TReset \/ TResp \/ TAdv
+\* many other sequences were opened (their answers are not part of this history: Isolation)
+TBurst == Consume("burst") /\ UNCHANGED pvars
+
+TNext == TReset \/ TResp \/ TAdv \/ TBurst
 
 TraceSpec == TInit /\ [][TNext]_tvars
 
